@@ -63,7 +63,7 @@ struct Ctx {
     void mark_ran(int i) { JRec &r = j[(size_t)i]; r.ran++; r.on_worker = is_current(*pp); r.t_ran = hz::tick(); }
     // a coroutine that was just cancelled or handed over typically looks at the pool again (is it stopped? can I
     // re-submit?): this must be possible wherever the library chose to resume it (e.g. not under the pool's lock)
-    void touch_pool() { hz::slot_add(13, pp->is_stopped() ? 1 : 2); }     // (slot: bookkeeping invisible to TSan)
+    void touch_pool() { hz::slot_add(13, pp->is_stopped() ? 1 : 2); hz::slot_add(13, pp->any_enqueued() ? 1 : 2); }     // (slot: bookkeeping invisible to TSan)
 };
 
 // closure guard for run_detached: counts live instances through an atomic-free slot
